@@ -226,6 +226,53 @@ def extract(ctx):
                 if any(isinstance(n, ast.Call) and isinstance(n.func, ast.Attribute) and n.func.attr in handoff for n in ast.walk(fn)):
                     names.append(fn.name)
         g.strings('emitters_' + cls, names)
+        # state kept by the long-lived objects: every attribute store (method:attr), every non-constant `self.<attr>` read by
+        # an emitting method, decorators (caches) and global/nonlocal statements
+        stores, reads, decos = [], set(), []
+        modelled = {q.split('.')[1] for rp, q, _ in METHODS if rp == relpath and q.split('.')[0] == cls}
+        for fn in c.body:
+            if not isinstance(fn, (ast.FunctionDef, ast.AsyncFunctionDef)):
+                continue
+            for d in fn.decorator_list:
+                decos.append('%s:@%s' % (fn.name, ast.unparse(d)))
+            for n in _sorted_nodes(fn, lambda n: isinstance(n, (ast.Attribute, ast.Subscript)) and isinstance(n.ctx, (ast.Store, ast.Del))):
+                root = ast.unparse(n).split('.')[0].split('[')[0]
+                # the local packet being built and local dicts/lists are not object state
+                if (isinstance(n, ast.Attribute) and root != 'pk') or (isinstance(n, ast.Subscript) and (root == 'self' or root[:1].isupper())):
+                    stores.append('%s:%s' % (fn.name, ast.unparse(n)))
+            for n in _sorted_nodes(fn, lambda n: isinstance(n, (ast.Global, ast.Nonlocal))):
+                stores.append('%s:%s' % (fn.name, ast.unparse(n)))
+            for n in ast.walk(fn):
+                if isinstance(n, ast.Call) and ast.unparse(n.func) in ('setattr', 'object.__setattr__', 'delattr'):
+                    stores.append('%s:%s' % (fn.name, ast.unparse(n)))
+            if fn.name in modelled:
+                for n in ast.walk(fn):
+                    if isinstance(n, ast.Attribute) and isinstance(n.value, ast.Name) and n.value.id == 'self' and isinstance(n.ctx, ast.Load) \
+                            and not n.attr.isupper():
+                        reads.add(n.attr)
+        g.strings('stores_' + cls, stores)
+        g.strings('selfReads_' + cls, sorted(reads))
+        g.strings('decorators_' + cls, decos)
+    gpv = X.find(trees['cflib/crazyflie/platformservice.py'], 'PlatformService.get_protocol_version')
+    g.strings('getProtocolVersion', [ast.unparse(st) for st in gpv.body if not (isinstance(st, ast.Expr) and isinstance(st.value, ast.Constant))])
+    # module-level mutable state of the anchored modules (anything but imports, constants, classes, functions, docstrings, loggers)
+    for relpath in ('cflib/crazyflie/commander.py', 'cflib/crazyflie/high_level_commander.py', 'cflib/crazyflie/localization.py',
+                    'cflib/crazyflie/extpos.py', 'cflib/crazyflie/platformservice.py', 'lpslib/lopoanchor.py', 'cflib/utils/encoding.py'):
+        odd = []
+        for st in trees[relpath].body:
+            if isinstance(st, (ast.Import, ast.ImportFrom, ast.ClassDef, ast.FunctionDef)):
+                continue
+            if isinstance(st, ast.Expr) and isinstance(st.value, ast.Constant):
+                continue
+            if isinstance(st, ast.Assign):
+                try:
+                    v = ast.literal_eval(st.value)
+                    if isinstance(v, (int, float, str)) or (isinstance(v, list) and all(isinstance(x, str) for x in v)):
+                        continue
+                except Exception:
+                    pass
+            odd.append(ast.unparse(st).split('\n')[0][:100])
+        g.strings('moduleState_' + relpath.split('/')[-1][:-3], odd)
     # ---- method specific expressions
     # send_setpoint: x-mode mix text, full-state scaling
     at = _assign_texts(fns['setpoint'])
